@@ -115,6 +115,8 @@ fn gen_set(rng: &mut Rng) -> Set {
             // one simple name in the null namespace AND in a namespace, referred to without qualification from inside
             // that namespace: the reference means the type of the referrer's own namespace, whatever was parsed first
             kind = "simple name defined in two namespaces";
+            // (keep the set small: the model enumerates every order of the pending inputs)
+            texts.clear();
             texts.push(json!({"type":"fixed","name":"Shadow","size":1}));
             texts.push(json!({"type":"fixed","name":"Shadow","namespace":"sh.ns","size":2}));
             texts.push(json!({"type":"record","name":"sh.ns.UsesShadow","fields":[{"name":"s","type":"Shadow"},{"name":"t","type":{"type":"array","items":"Shadow"}}]}));
